@@ -547,8 +547,9 @@ def _direct_copy_loops(ctx, f: Func) -> List[CopyLoop]:
                 cn = cfg.node_containing(n) or cfg.node_of(n)
                 atoms = []
                 hdr_ids = {(id(t), p) for t, p in header}
+                stop = {key, val_name or key} | {x.id for x in ast.walk(dst) if isinstance(x, ast.Name)}
+                value = ex.expand(value, cn, stop=stop)
                 for t, pol in [c for c in cfg.conditions(cn) if (id(c[0]), c[1]) not in hdr_ids]:
-                    stop = {key, val_name or key} | {x.id for x in ast.walk(dst) if isinstance(x, ast.Name)}
                     atoms += facts.split_conj(ex.expand(t, cfg.node_containing(t), stop=stop), pol)
                 out.append(CopyLoop(fo, n, src_expr, dst, key, val_name, value, atoms, header))
     return out
@@ -789,7 +790,7 @@ class CloneAnalysis:
                 continue
             p = par.get(id(n))
             where = at if inlined else n
-            if isinstance(p, ast.Assign) and any(t is n for t in p.targets):
+            if isinstance(p, ast.Assign) and any(t is n for t in p.targets) or isinstance(p, ast.AnnAssign) and p.target is n:
                 continue
             if isinstance(p, ast.AugAssign) and p.target is n:
                 self.refute(F, where, p, f"`{src(p)[:80]}` merges entries into the clone map: an entry of a selected task can be "
